@@ -153,6 +153,7 @@ func famC12(r *Run) {
 	famC12extra(r)
 	famConcFlatten(r)
 	famConcAfterError(r)
+	famTypedSliceSort(r)
 }
 
 // ---- C19 ----
